@@ -30,12 +30,14 @@ impl super::GetFrameType for NewTokenFrame {
 
 impl super::EncodeSize for NewTokenFrame {
     fn max_encoding_size(&self) -> usize {
-        // token's length could not exceed 20
-        1 + 1 + self.token.len()
+        self.encoding_size()
     }
 
     fn encoding_size(&self) -> usize {
-        1 + 1 + self.token.len()
+        // the Token Length field is a variable-length integer: 2 bytes for a token of 64 bytes or more
+        let token_length =
+            VarInt::try_from(self.token.len()).expect("token length must be less than 2^62");
+        1 + token_length.encoding_size() + self.token.len()
     }
 }
 
